@@ -142,7 +142,8 @@ pub fn request(header: &Value, blob: &[u8], timeout: Duration) -> Reply {
             }
         }
         let r = w.as_mut().unwrap().request(header, blob, timeout);
-        if !matches!(r, Reply::Ok(_)) {
+        let exiting = matches!(&r, Reply::Ok(v) if v.get("_exiting").is_some());
+        if !matches!(r, Reply::Ok(_)) || exiting {
             *w = None;
         }
         r
@@ -184,4 +185,18 @@ pub fn worker_main(handler: impl Fn(&Value, &[u8]) -> Value) -> ! {
         let _ = so.write_all(&out);
         let _ = so.flush();
     }
+}
+
+/// Child side: answer the current request and leave the process at once (used when threads of the job are blocked
+/// for good and cannot be joined).  The parent discards the worker on seeing `_exiting`.
+pub fn reply_and_exit(mut reply: Value) -> ! {
+    reply["_exiting"] = json!(true);
+    let out = serde_json::to_vec(&reply).unwrap();
+    {
+        let mut so = std::io::stdout().lock();
+        let _ = so.write_all(&(out.len() as u32).to_le_bytes());
+        let _ = so.write_all(&out);
+        let _ = so.flush();
+    }
+    unsafe { libc::_exit(0) }
 }
